@@ -31,7 +31,7 @@ type c18Case struct {
 	TwoSets   bool   `json:"twoSets"`   // a second StatefulSet with a similar name exists
 }
 
-const maxN = 6
+const maxN = 12 // ordinals >= 10 matter: "prom-10" sorts before "prom-2" as a string
 
 func c18Cases(tier string) []c18Case {
 	var cs []c18Case
@@ -40,11 +40,18 @@ func c18Cases(tier string) []c18Case {
 			for tpl := 0; tpl <= 2; tpl++ {
 				for _, del := range []bool{false, true} {
 					for order := 0; order < 6; order++ {
-						masks := []uint32{0, (1 << uint(old)) - 1, 0x15 & ((1 << uint(old)) - 1), 0x2a & ((1 << uint(old)) - 1)}
+						masks := []uint32{0, (1 << uint(old)) - 1, 0x555 & ((1 << uint(old)) - 1), 0xaaa & ((1 << uint(old)) - 1)}
 						if tier == "thorough" {
-							masks = nil
-							for m := uint32(0); m < 1<<uint(old); m++ {
-								masks = append(masks, m)
+							if old <= 6 {
+								masks = nil
+								for m := uint32(0); m < 1<<uint(old); m++ {
+									masks = append(masks, m)
+								}
+							} else {
+								r := core.NewRng(uint64(old), uint64(nw), uint64(order))
+								for k := 0; k < 16; k++ {
+									masks = append(masks, uint32(r.Uint64())&((1<<uint(old))-1))
+								}
 							}
 						}
 						seen := map[uint32]bool{}
@@ -158,7 +165,7 @@ func buildWorld(c c18Case) (objs []runtime.Object, pvcNames map[string]bool) {
 			addPVC(fmt.Sprintf("%s-%s-%d", tn, set, k))
 			addPVC(fmt.Sprintf("%s-%s-b-%d", tn, set, k))
 		}
-		addPVC(fmt.Sprintf("%s-%s-1%d", tn, set, 0)) // data-prom-10
+		addPVC(fmt.Sprintf("%s-%s-100", tn, set)) // data-prom-100
 		addPVC(fmt.Sprintf("x%s-%s-%d", tn, set, 1))
 	}
 	addPVC("other-prom-0")
@@ -339,7 +346,7 @@ func init() {
 	core.Register(&core.Prop{
 		ID:    "C18",
 		Level: "exploration",
-		Rule: "exhaustive sweep within bounds: current and requested replica count in 0..6 x 0..2 volume claim templates x deletion flag x 6 pod-list order classes x readiness patterns (quick: none / all / two alternating masks; thorough: every subset of pods with an IP), each with claims for all ordinals 0..6 of two StatefulSets plus decoys with similar names (data-prom-10, xdata-prom-1, data-promx-0, data-prom-b-k) and, in half of the cases, a second StatefulSet 'prom-b'; plus rolling-update-in-progress cases; " +
+		Rule: "exhaustive sweep within bounds: current and requested replica count in 0..12 (two-digit ordinals included) x 0..2 volume claim templates x deletion flag x 6 pod-list order classes x readiness patterns (quick: none / all / two alternating masks; thorough: every subset of pods with an IP up to 6 pods, 16 random subsets above), each with claims for all ordinals 0..12 of two StatefulSets plus decoys with similar names (data-prom-100, xdata-prom-1, data-promx-0, data-prom-b-k) and, in half of the cases, a second StatefulSet 'prom-b'; plus rolling-update-in-progress cases; " +
 			"the real kubernetes.ReplicasManager / shard manager run on a client-go fake clientset; oracle over returned shards (ID, readiness, contacted URL) and over the fake's action log and objects; " +
 			"non-trivial = every case; distinct = the parameter tuple",
 		Assumptions: []string{
